@@ -1,3 +1,5 @@
 SPECIFICATION TraceSpec
+CONSTANTS
+  ReorgMarked = TRUE
 INVARIANT Report
 CHECK_DEADLOCK FALSE
